@@ -167,6 +167,14 @@ func oracleRunnable(host, tgt P) bool {
 	return true
 }
 
+// documentedHost: hosts for which the compatibility rule is spelled out (package documentation and
+// user documentation): linux, windows, darwin. For these the independent oracle and the package agree on
+// every pair of the universe on the unchanged tree, so a disagreement is decided by the oracle alone.
+func documentedHost(h P) bool {
+	o := canonOS(h.OS)
+	return o == "linux" || o == "windows" || o == "darwin"
+}
+
 func ps(p *P) string {
 	if p == nil {
 		return "<nil>"
@@ -253,6 +261,14 @@ func checkSearch(req P, l []*P, viaManifest bool, st *stats) {
 		}
 		if anyOracle && !anyCompat {
 			st.oracleDisagree++
+			if documentedHost(req) {
+				for _, p := range l {
+					if p != nil && oracleRunnable(req, *p) {
+						run.Violation("search/not-found-though-runnable-by-documented-rule/"+canonOS(req.OS)+"-runs-"+canonOS(p.OS), fmt.Sprintf("request %s list %s: nothing chosen although %s is runnable by the documented rule (same architecture; Linux entries run on Windows and macOS hosts through the Linux VM; a Windows entry needs the host's build)", ps(&req), listStr(l), ps(p)), w)
+						break
+					}
+				}
+			}
 		}
 		return
 	}
@@ -410,6 +426,7 @@ func main() {
 	run.Exhaustive(true)
 	run.Sample(map[string]any{"requested": "linux/arm/v7", "list": "[linux/arm/v6 linux/arm/v7 linux/arm64]", "law": "chosen must be linux/arm/v7 (exact match)"})
 
+	osVersionOrder()
 	parseLaws()
 	manifestGetPlatform()
 
@@ -417,6 +434,68 @@ func main() {
 		run.Inconclusive("too few searches chose an entry")
 	}
 	os.Exit(run.Finish())
+}
+
+// ---- os version order ---------------------------------------------------------------------------
+// Among Windows entries that differ only in os.version (same number of dotted components, neither being
+// the version the host asked for) the numerically higher version is the better one; the comparison is
+// by number, component by component, not by text.
+func osVersionOrder() {
+	vers := []string{"10.0.17763.1", "10.0.17763.2", "10.0.17763.10", "10.0.17763.99", "10.0.17763.100", "10.0.17763.999", "10.0.17763.1000", "10.0.17763.2000", "10.0.17763.2114",
+		"10.0.9200.5", "10.0.14393.10", "10.0.20348.1", "9.13.1.1", "12.4.1.1", "6.3.9600.20000"}
+	num := func(v string) []int {
+		var out []int
+		for _, p := range strings.Split(v, ".") {
+			n := 0
+			fmt.Sscanf(p, "%d", &n)
+			out = append(out, n)
+		}
+		return out
+	}
+	less := func(a, b string) bool {
+		x, y := num(a), num(b)
+		for i := range x {
+			if x[i] != y[i] {
+				return x[i] < y[i]
+			}
+		}
+		return false
+	}
+	hosts := []P{{OS: "windows", Architecture: "amd64"}, {OS: "windows", Architecture: "amd64", OSVersion: "10.0.17763.500"}, {OS: "windows", Architecture: "arm64"}}
+	for _, h := range hosts {
+		cmp := platform.NewCompare(h)
+		for _, va := range vers {
+			for _, vb := range vers {
+				a := P{OS: "windows", Architecture: h.Architecture, OSVersion: va}
+				b := P{OS: "windows", Architecture: h.Architecture, OSVersion: vb}
+				if va == vb || !oracleRunnable(h, a) || !oracleRunnable(h, b) || !platform.Compatible(h, a) || !platform.Compatible(h, b) {
+					continue
+				}
+				run.Count("os_version_pairs", 1)
+				if got, want := cmp.Better(a, b), less(vb, va); got != want {
+					run.Violation("order/os-version-not-by-number", fmt.Sprintf("request %s: Better(%s over %s) = %t, the versions compare by number as %s %s %s", ps(&h), va, vb, got, va, map[bool]string{true: ">", false: "<"}[want], vb), nil)
+				}
+				// and the search picks the higher one in either listing order
+				for _, l := range [][]*P{{&a, &b}, {&b, &a}} {
+					d, err := descriptor.DescriptorListSearch(mkDescs(l), descriptor.MatchOpt{Platform: &h})
+					if err != nil || d.Platform == nil {
+						run.Violation("search/not-found-though-runnable", fmt.Sprintf("request %s list %s: nothing chosen", ps(&h), listStr(l)), nil)
+						continue
+					}
+					hi := va
+					if less(va, vb) {
+						hi = vb
+					}
+					if d.Platform.OSVersion != hi {
+						run.Violation("search/higher-os-version-passed-over", fmt.Sprintf("request %s list %s: chose os.version %s, the numerically higher %s is listed", ps(&h), listStr(l), d.Platform.OSVersion, hi), nil)
+					}
+				}
+			}
+		}
+	}
+	if run.Get("os_version_pairs") < 50 {
+		run.Inconclusive("too few os.version pairs were comparable")
+	}
 }
 
 // ---- parse / print laws ------------------------------------------------------------------
